@@ -16,7 +16,7 @@ PROPERTY = "C15"
 LEVEL = "model_checking"
 RULE = (
     "states = sections built by histories of append(n) / insert(0, n) / del[0] / del[-1] with n in {A, a, B, '', 'A:1', "
-    "'1', 'count'} from 4 roots (empty with case-insensitive comparison off/on, sections read with mnemonic_case "
+    "'1', 'count', 'Vsh'} from 4 roots (empty with case-insensitive comparison off/on, sections read with mnemonic_case "
     "preserve/upper), deduplicated by (comparison mode, (session, original) per item); in every state each probe key "
     "{A, a, B, b, '', UNKNOWN, unknown, '1', 'A:1', 'a:1', 'A:2', Z, count, COUNT} is tried through k in s, s[k], "
     "getattr, get, get(add=True), s[k] = plain value, del s[k]; integers {0, -1, len, -len-1} and four slices are "
@@ -28,9 +28,9 @@ ASSUMPTIONS = [
     "reference semantics: first item whose session mnemonic equals the key, compared case-insensitively iff the section was read with case normalisation",
 ]
 
-NAMES = ["A", "a", "B", "", "A:1", "1", "count"]
-PROBES = ["A", "a", "B", "b", "", "UNKNOWN", "unknown", "1", "A:1", "a:1", "A:2", "Z", "count", "COUNT"]
-DEPTH = {"quick": 4, "thorough": 6}
+NAMES = ["A", "a", "B", "", "A:1", "1", "count", "Vsh"]
+PROBES = ["A", "a", "B", "b", "", "UNKNOWN", "unknown", "1", "A:1", "a:1", "A:2", "Z", "count", "COUNT", "Vsh", "VSH", "vsh"]
+DEPTH = {"quick": 3, "thorough": 5}
 ROOTS = ["empty", "empty-ci", "read-preserve", "read-upper", "read-upper-emptyP", "read-lower-emptyP", "read-preserve-emptyP",
          "read-upper-pickled", "read-upper-deepcopied", "read-curves", "read-curves-pickled"]
 # whether the section compares case-insensitively follows from how it was made, not from the object's own flag
@@ -190,6 +190,24 @@ def probe_state(root, history):
                 vio.append(V("get-add-mutates", k, "section unchanged", content(s)))
         except Exception as e:
             vio.append(V("get-add", k, "item", repr(e)))
+        # get(k, default=<an item that lives in another section>, add=True), then a plain-value assignment through s:
+        # the other section (its item, names and values) is not touched by anything done through s
+        if k.strip():
+            n += 1
+            s = build(root, history)
+            donor = SectionItems()
+            donor.mnemonic_transforms = ci
+            ditem = c13.new_item(CurveItem if any(isinstance(i, CurveItem) for i in s) else HeaderItem, k, 99)
+            donor.append(ditem)
+            donor.append(c13.new_item(type(ditem), k, 98))   # the donor holds the name twice (k:1, k:2)
+            dsnap = snap(donor)
+            try:
+                got = s.get(k, default=ditem, add=True)
+                s[got.mnemonic] = "NEW VALUE"
+                if snap(donor) != dsnap:
+                    vio.append(V("get-add-touches-other-section", k, [d[1:5] for d in dsnap], [d[1:5] for d in snap(donor)]))
+            except Exception as e:
+                vio.append(V("get-add-default-item", k, "item appended or found", repr(e)))
         # s[k] = plain value: only that item's value changes
         n += 1
         s = build(root, history)
